@@ -25,9 +25,9 @@ Concrete side
 Abstract side
 -------------
 * a taint is a list of *atoms*: `0` = "anything that may have existed before
-  the call" (cache entries, globals, contents of arguments), `i+1` = "the
-  object passed as parameter `i` itself".  The empty taint = allocated during
-  this call.
+  the call" (cache entries, globals …), `2i+1` = "the object passed as
+  parameter `i` itself", `2i+2` = "anything reachable from parameter `i`".
+  The empty taint = allocated during this call.
 * `analyse` is a flow-sensitive abstract interpreter (strong updates on
   assignment, join at `ite`, checked post-fixpoint at `loop`) that uses one
   `Summ` per function: which atoms the function may mutate (array-wise /
@@ -101,9 +101,12 @@ inductive Stmt where
   | mutate (x : Var)
   /-- container-structure operation (`append`, `remove`, `d[k] = v` on a dict …) -/
   | cmutate (x : Var)
-  /-- the value `y` has been stored *by reference* into some container
-  (`lst.append(y)`, `d[k] = y`): from now on every live container may reach it -/
-  | absorb (y : Var)
+  /-- the value `y` has been stored *by reference* into the container `x`
+  (`x.append(y)`, `x[k] = y`): from now on every live container of this
+  activation may reach it; the caller is told (`St.esc`) when `x` may be an
+  object the caller can see, or when such an object has been given a reference
+  to something of this activation before (`St.leaked`) -/
+  | absorb (x y : Var)
   /-- `self.data[k] = x` / `self.attr = x` -/
   | store (k : Key) (x : Var)
   /-- `return x` -/
@@ -150,13 +153,17 @@ structure St where
   env : List Val
   params : List Val
   ret : Option Val
-  /-- roots stored by reference into containers during this activation -/
+  /-- roots stored by reference into containers the caller may see -/
   esc : List Nat
+  /-- a container that existed before this activation has been given a reference -/
+  leaked : Bool
+  /-- `Heap.next` when the activation started: roots below it existed before -/
+  base : Nat
   h : Heap
   ch : List Bool
 
 def St.init (params : List Val) (h : Heap) (ch : List Bool) : St :=
-  { env := [], params := params, ret := none, esc := [], h := h, ch := ch }
+  { env := [], params := params, ret := none, esc := [], leaked := false, base := h.next, h := h, ch := ch }
 
 def getV (e : List Val) (x : Var) : Val := getE Val.none e x
 def setV (e : List Val) (x : Var) (v : Val) : List Val := setE Val.none e x v
@@ -237,9 +244,10 @@ def exec (p : Program) : Nat → Stmt → St → Option St
     | .cmutate x =>
       let rs := (getV st.env x).own
       some { st with h := { st.h with cver := bump rs st.h.cver } }
-    | .absorb y =>
+    | .absorb x y =>
       let rs := (getV st.env y).reach
-      some { st with env := absorbAll st.env rs, esc := st.esc ++ rs }
+      let vis := st.leaked || (getV st.env x).own.any (fun r => decide (r < st.base))
+      some { st with env := absorbAll st.env rs, esc := if vis then st.esc ++ rs else st.esc, leaked := vis }
     | .store k x => some { st with h := { st.h with cache := (k, getV st.env x) :: st.h.cache } }
     | .ret x => some { st with ret := some (getV st.env x) }
 
@@ -303,6 +311,8 @@ def Summ.mut (s : Summ) (c : Bool) : Taint := if c then s.mutC else s.mutA
 
 structure AS where
   env : List AVal
+  /-- a pre-existing container may have been given a reference in this activation -/
+  leaked : Bool
   s : Summ
 deriving Repr
 
@@ -319,8 +329,8 @@ def envLeB : List AVal → List AVal → Bool
   | a :: e1, [] => a.leB AVal.bot && envLeB e1 []
   | a :: e1, b :: e2 => a.leB b && envLeB e1 e2
 
-def AS.join (a b : AS) : AS := ⟨envJoin a.env b.env, a.s.join b.s⟩
-def AS.leB (a b : AS) : Bool := envLeB a.env b.env && a.s.leB b.s
+def AS.join (a b : AS) : AS := ⟨envJoin a.env b.env, a.leaked || b.leaked, a.s.join b.s⟩
+def AS.leB (a b : AS) : Bool := envLeB a.env b.env && (!a.leaked || b.leaked) && a.s.leB b.s
 def AS.fail (a : AS) : AS := { a with s := { a.s with ok := false } }
 
 def absorbA (e : List AVal) (t : Taint) : List AVal :=
@@ -330,10 +340,11 @@ def reachA (e : List AVal) (ys : List Var) : Taint :=
   dedup (ys.flatMap fun y => (getA e y).reach)
 
 /-- a callee atom seen from the call site: `0` stays `0`; "parameter `i`
-itself" becomes whatever the `i`-th argument may itself be. -/
+itself" (`2i+1`) becomes whatever the `i`-th argument may itself be, "reachable
+from parameter `i`" (`2i+2`) whatever the `i`-th argument may reach. -/
 def instAtom (as : List AVal) : Nat → Taint
   | 0 => [0]
-  | i + 1 => (getA as i).own
+  | n + 1 => if n % 2 = 0 then (getA as (n / 2)).own else (getA as (n / 2)).reach
 
 def inst (as : List AVal) (t : Taint) : Taint := dedup (t.flatMap (instAtom as))
 
@@ -343,6 +354,7 @@ def applyCall (sm : Summ) (as : List AVal) (x : Var) (force : AVal) (σ : AS) : 
   let e := inst as sm.esc
   { env := setA (absorbA σ.env e) x
       ⟨force.own.join (inst as sm.retOwn), force.reach.join (inst as sm.retReach)⟩,
+    leaked := σ.leaked,
     s := { σ.s with ok := σ.s.ok && sm.ok,
                     mutA := σ.s.mutA.join (inst as sm.mutA),
                     mutC := σ.s.mutC.join (inst as sm.mutC),
@@ -364,7 +376,7 @@ def analyse (S : List Summ) (kf : Key → Option FnId) : Stmt → AS → AS
   | .join x ys, σ => { σ with env := setA σ.env x ⟨[], reachA σ.env ys⟩ }
   | .alias x y, σ => { σ with env := setA σ.env x (getA σ.env y) }
   | .view x ys, σ => let t := reachA σ.env ys; { σ with env := setA σ.env x ⟨t, t⟩ }
-  | .param x i, σ => { σ with env := setA σ.env x ⟨[i + 1], [i + 1, 0]⟩ }
+  | .param x i, σ => { σ with env := setA σ.env x ⟨[2 * i + 1], [2 * i + 1, 2 * i + 2]⟩ }
   | .glob x _, σ => { σ with env := setA σ.env x ⟨[0], [0]⟩ }
   | .cached x k, σ =>
     match kf k with
@@ -375,9 +387,11 @@ def analyse (S : List Summ) (kf : Key → Option FnId) : Stmt → AS → AS
     let t := (getA σ.env x).own
     { σ with s := { σ.s with mutA := σ.s.mutA.join t, mutC := σ.s.mutC.join t } }
   | .cmutate x, σ => { σ with s := { σ.s with mutC := σ.s.mutC.join (getA σ.env x).own } }
-  | .absorb y, σ =>
+  | .absorb x y, σ =>
     let t := (getA σ.env y).reach
-    { env := absorbA σ.env t, s := { σ.s with esc := σ.s.esc.join t } }
+    let vis := σ.leaked || !(getA σ.env x).own.isEmpty
+    { env := absorbA σ.env t, leaked := vis,
+      s := if vis then { σ.s with esc := σ.s.esc.join t } else σ.s }
   | .store _ _, σ => σ
   | .ret x, σ =>
     let v := getA σ.env x
@@ -385,7 +399,7 @@ def analyse (S : List Summ) (kf : Key → Option FnId) : Stmt → AS → AS
 
 /-- summary computed from a body under the summaries `S` -/
 def bodySumm (S : List Summ) (kf : Key → Option FnId) (fn : Fn) : Summ :=
-  (analyse S kf fn.body ⟨[], Summ.bot⟩).s
+  (analyse S kf fn.body ⟨[], false, Summ.bot⟩).s
 
 /-! ## fixed point and the check -/
 
@@ -423,9 +437,11 @@ def fnOK (fn : Fn) (sm : Summ) : Bool :=
   && !(sm.mutA.contains 0)
   -- a public function may not change array contents of its own arguments either
   && (!fn.pub || sm.mutA.isEmpty)
-  -- save/read functions: the same for argument lists / dicts
-  && (!fn.strict || !(sm.mutC.contains 0))
-  && (!fn.cpub || sm.mutC.all (fun a => a == 0))
+  -- save/read functions, `strict`: no in-place change at all of anything that existed
+  -- before the call, except the argument objects themselves (atoms `2i+1`) ...
+  && (!fn.strict || sm.mutC.all (fun a => a % 2 == 1))
+  -- ... `cpub`: and not of the argument objects themselves either
+  && (!fn.cpub || sm.mutC.all (fun a => a % 2 == 0))
 
 def checkWith (p : Program) (S : List Summ) : Bool :=
   consistentB p S &&
